@@ -43,6 +43,7 @@ CONSTANTS Shapes,      \* set of <<H,W>>: frames of the 2D masks explored (every
           ProjShapes,  \* frames of the 2D grids handed to project_grid
           Families,    \* which families of instances this run explores ("wrap", "project", "transform", "reloc", "tiny"): TLC's
                        \*   initial-state phase is single-threaded and superlinear, large bounds are split over several runs
+          ClsShapes, ClsLens,   \* frames / lengths of the grids handed over as instances of a SUBCLASS of their grid kind
           AngleQs      \* profile angles as multiples of 90 degrees (-2 .. 5 covers every quadrant and beyond a full turn);
                        \*   99 = the profile has no angle attribute, 98 = a numeric angle picked by the harness
 
@@ -93,6 +94,10 @@ InDomain(api, gk, rk) ==
       [] api \in {"transform", "reloc"}            -> gk \in {"g2d", "irr", "nd"}
       [] OTHER -> FALSE
 Elements(lst) == IF lst THEN 2 ELSE 1
+\* The grid KIND is what the property speaks about; the concrete CLASS of the grid object may be the kind's own class ("base"),
+\* another public class of that kind ("uniform": Grid2DIrregularUniform is a Grid2DIrregular) or a subclass defined downstream
+\* ("sub": class MyGrid(aa.Grid2D): pass).  A grid of any class of a kind is judged exactly like the kind.
+ClassesOf(gk) == CASE gk = "irr" -> {"base", "uniform", "sub"} [] gk \in {"g2d", "g1d"} -> {"base", "sub"} [] OTHER -> {"base"}
 
 \* What a wrapping decorator returns for a function that received the points with tags `rid` (in this order):
 \* every element of the result holds entry k = f(point k); a 2D container additionally lives on the input mask.
@@ -248,7 +253,9 @@ Masks(sh) == (SUBSET Cells(sh[1], sh[2])) \ {{}}
 AllCells(n) == Cells(1, n)
 NoPar == << 0, 0, 0, 0 >>
 Mk(api, gk, rk, lst, h, w, u, par, depth, flag) ==
-    [api |-> api, gk |-> gk, rk |-> rk, lst |-> lst, h |-> h, w |-> w, u |-> u, par |-> par, depth |-> depth, flag |-> flag]
+    [api |-> api, gk |-> gk, rk |-> rk, lst |-> lst, h |-> h, w |-> w, u |-> u, par |-> par, depth |-> depth, flag |-> flag,
+     cls |-> "base"]
+OfClass(S, gk) == { [r EXCEPT !.cls = c] : r \in S, c \in ClassesOf(gk) \ {"base"} }
 
 \* The families of instances.  (One definition and one disjunct of Init per family: TLC enumerates them one after the other;
 \* a \cup of large sets would test every element of one side for membership in the other.)
@@ -282,11 +289,36 @@ TinyG2D == UNION { UNION { { Mk(a, "g2d", ResultKindOf(a), FALSE, sh[1], sh[2], 
                            : sh \in TinyShapes } : a \in {"reloc", "stack_array", "stack_grid"}, e \in TinyEps, d \in TinyDirs,
                                                     R \in { g[4] : g \in Geoms } }
 
+\* every decorator on every non-base class of every grid kind (small frames; irregular sets of ClsLens points, whose coordinates
+\* the harness picks)
+ClsG2D ==
+    OfClass(UNION { UNION { { Mk(a, "g2d", ResultKindOf(a), l, sh[1], sh[2], u, NoPar, 0, FALSE) : u \in Masks(sh) }
+                            : sh \in ClsShapes } : a \in {"to_array", "to_grid", "to_vector_yx"}, l \in BOOLEAN }, "g2d")
+    \cup OfClass(UNION { UNION { { Mk("project", "g2d", "values", FALSE, sh[1], sh[2], u, << g[1], g[2], g[3], aq >>, 0, FALSE) : u \in Masks(sh) }
+                                  : sh \in ClsShapes } : g \in PGeoms, aq \in AngleQs \cap {-1, 0, 1, NoAngle} }, "g2d")
+    \cup OfClass(UNION { UNION { { Mk("transform", "g2d", "values", FALSE, sh[1], sh[2], u, NoPar, d, f) : u \in Masks(sh) }
+                                  : sh \in ClsShapes } : d \in Depths, f \in BOOLEAN }, "g2d")
+    \cup OfClass(UNION { UNION { { Mk(a, "g2d", ResultKindOf(a), FALSE, sh[1], sh[2], u, g, 1, FALSE) : u \in Masks(sh) }
+                                  : sh \in ClsShapes } : g \in Geoms, a \in {"reloc", "stack_array", "stack_grid"} }, "g2d")
+ClsIrr ==
+    OfClass({ Mk(a, "irr", ResultKindOf(a), l, 1, n, AllCells(n), NoPar, 0, FALSE)
+                : a \in {"to_array", "to_grid", "to_vector_yx"}, l \in BOOLEAN, n \in ClsLens }, "irr")
+    \cup OfClass({ Mk("project", "irr", rk, FALSE, 1, n, AllCells(n), NoPar, 0, FALSE) : rk \in {"values", "pairs"}, n \in ClsLens }, "irr")
+    \cup OfClass({ Mk("transform", "irr", "values", FALSE, 1, n, AllCells(n), NoPar, d, f) : n \in ClsLens, d \in Depths, f \in BOOLEAN }, "irr")
+    \cup OfClass({ Mk(a, "irr", ResultKindOf(a), FALSE, 1, n, AllCells(n), << 0, 0, 0, R >>, 1, FALSE)
+                      : a \in {"reloc", "stack_array", "stack_grid"}, n \in ClsLens, R \in { g[4] : g \in Geoms } }, "irr")
+ClsG1D ==
+    OfClass(UNION { { Mk(a, "g1d", ResultKindOf(a), l, 1, n, u, NoPar, 0, FALSE) : u \in Masks(<<1, n>>) }
+                    : a \in {"to_array", "to_grid"}, l \in BOOLEAN, n \in ClsLens }, "g1d")
+    \cup OfClass(UNION { { Mk("project", "g1d", "values", FALSE, 1, n, u, << 0, 0, 0, aq >>, 0, FALSE) : u \in Masks(<<1, n>>) }
+                          : n \in ClsLens, aq \in AngleQs \cap {-1, 0, 1, NoAngle} }, "g1d")
+
 Init == /\ \/ "wrap" \in Families /\ (inst \in WrapG2D \/ inst \in WrapIrr \/ inst \in WrapG1D)
            \/ "project" \in Families /\ (inst \in ProjG2D \/ inst \in ProjIrr \/ inst \in ProjG1D)
            \/ "transform" \in Families /\ (inst \in TransG2D \/ inst \in TransFlat)
            \/ "reloc" \in Families /\ (inst \in RelocG2D \/ inst \in RelocPoints)
            \/ "tiny" \in Families /\ (inst \in TinyPoints \/ inst \in TinyG2D)
+           \/ "classes" \in Families /\ (inst \in ClsG2D \/ inst \in ClsIrr \/ inst \in ClsG1D)
         /\ phase = "call"
         /\ obs = << >>
         /\ grid = BuiltTerms(Cardinality(inst.u))
@@ -313,7 +345,7 @@ Returns ==
     /\ PrintT(ToJson([k |-> "inst", api |-> inst.api, gk |-> inst.gk, rk |-> inst.rk, lst |-> inst.lst,
                       h |-> inst.h, w |-> inst.w,
                       u |-> LET ss == SlimSeq(inst.u, inst.h, inst.w) IN [j \in 1 .. Len(ss) |-> Lin(ss[j], inst.w)],
-                      par |-> inst.par, depth |-> inst.depth, flag |-> inst.flag]))
+                      par |-> inst.par, depth |-> inst.depth, flag |-> inst.flag, cls |-> inst.cls]))
     /\ grid' = grid           \* the input grid is read, never written
     /\ UNCHANGED << inst, hist >>
 
@@ -415,6 +447,7 @@ Wraps == inst.api \in {"to_array", "to_grid", "to_vector_yx", "project", "stack_
 \* every explored call is one the property speaks about, and gets a container class of the grid's own family
 DomainAndKinds ==
     /\ InDomain(inst.api, inst.gk, inst.rk)
+    /\ inst.cls \in ClassesOf(inst.gk)      \* (the container class below is a function of the KIND only: Dispatch never sees cls)
     /\ (Returned /\ Wraps) =>
          /\ inst.gk = "irr" => obs.d.kind \in {"ArrayIrregular", "Grid2DIrregular", "VectorYX2DIrregular"}
          /\ inst.gk = "g2d" /\ inst.api # "project" => obs.d.kind \in {"Array2D", "Grid2D", "VectorYX2D"}
